@@ -273,9 +273,9 @@ Definition two_writes_interleaved (b1 b2 : list N) : list N :=
 
 (* ------------------------------------------------------------------ (d) the per-connection in-flight counter *)
 (* cc := concurrent.Add(1); if cc > max { write REFUSED; concurrent.Add(-1) } else go { handle; write; concurrent.Add(-1) }
-   Queries are named by their position on the connection.  infl_fl is ghost: admitted, not yet finished. *)
+   Queries are named by their position on the connection.  infl_fl is ghost: accepted, not yet finished. *)
 Inductive infl_ev := InflArrive (q : nat) | InflFinish (q : nat).
-Inductive infl_out := InflRefused (q : nat) | InflAdmitted (q : nat) | InflAnswer (q : nat).
+Inductive infl_out := InflRefused (q : nat) | InflAccepted (q : nat) | InflAnswer (q : nat).
 Record infl_state := mkInfl { infl_n : nat; infl_fl : list nat }.
 Definition infl_init : infl_state := mkInfl 0 [].
 
@@ -292,7 +292,7 @@ Definition infl_step (L : nat) (st : infl_state) (e : infl_ev) : option (infl_st
   | InflArrive q =>
     let cc := S (infl_n st) in
     if L <? cc then Some (mkInfl (cc - 1) (infl_fl st), [InflRefused q])
-    else Some (mkInfl cc (q :: infl_fl st), [InflAdmitted q])
+    else Some (mkInfl cc (q :: infl_fl st), [InflAccepted q])
   | InflFinish q =>
     if 0 <? count_nat q (infl_fl st) then Some (mkInfl (infl_n st - 1) (remove_one q (infl_fl st)), [InflAnswer q])
     else None                                          (* not a behaviour: only a running handler finishes *)
